@@ -109,7 +109,8 @@ var zooTemplates = []string{
 	"{{ V|format(1) }}", "{{ V|spaceless }}", "{{ V|raw }}", "{{ V|count }}",
 	"{% for x in V %}{{ x }}{{ loop.index }}{% else %}E{% endfor %}", "{% for k, x in V %}{{ k }}={{ x }}{% endfor %}",
 	"{{ V.Name }}{{ V.name }}{{ V.Hello }}{{ V.PtrM }}{{ V.WithArg }}{{ V.Inner.V }}{{ V.V }}{{ V.priv }}{{ V.nosuch.deeper }}", "{{ V[0] }}{{ V['a'] }}{{ V[n] }}{{ V[-1] }}{{ V[99] }}{{ V[V] }}",
-	"{{ V + 1 }}{{ V ~ 'x' }}{{ V == V }}{{ V < 2 }}", "{{ V * V }}", "{{ V / 1 }}", "{{ V % 2 }}", "{{ V ^ 2 }}", "{{ -V }}{{ not V }}", "{{ 1 in V }}{{ V in V }}{{ 'a' in V }}", "{{ 700 in V }}{{ 'x' not in V }}{{ [1] in V }}{{ {'id': 1} in V }}{{ V|first in V }}{{ V|last in V }}", "{{ V starts with 'h' }}{{ V ends with V }}", "{{ V matches '/h/' }}",
+	"{{ V + 1 }}{{ V ~ 'x' }}{{ V == V }}{{ V < 2 }}", "{{ V * V }}", "{{ V / 1 }}", "{{ V % 2 }}", "{{ V ^ 2 }}", "{{ -V }}{{ not V }}", "{{ 1 in V }}{{ V in V }}{{ 'a' in V }}", "{{ 700 in V }}{{ 'x' not in V }}{{ [1] in V }}{{ {'id': 1} in V }}{{ V|first in V }}{{ V|last in V }}", "{{ V starts with 'h' }}{{ V ends with V }}", "{{ V matches '/h/' }}", "{{ 'abc' matches V }}{{ V matches V }}", "{{ 'abc' matches '/i' }}", "{{ 'abc' matches '/' }}{{ 'abc' matches '' }}", "{{ 'abc' matches '//' }}{{ 'abc' matches '//i' }}{{ 'abc' matches 'i' }}",
+	"{{ 'abc' matches '/a' }}{{ 'abc' matches 'a/' }}{{ 'abc' matches '/a/x' }}{{ 'abc' matches '/a/ii' }}", "{{ 'abc' matches '/[/' }}", "{{ 'abc' matches '/(/i' }}", "{{ 'abc' matches '/\\\\/' }}{{ 'abc' matches '\\\\' }}", "{{ 'abc' matches '/a{99999}/' }}",
 	"{% if V %}T{% else %}F{% endif %}", "{{ V is defined }}{{ V is empty }}{{ V is iterable }}{{ V is null }}", "{{ V is even }}", "{{ V is divisible_by(2) }}", "{{ V is same_as(V) }}",
 	"{{ V ? 1 : 2 }}", "{{ max(V) }}{{ min(V) }}", "{{ max(V, 1) }}", "{{ range(V) }}", "{{ range(0, V) }}", "{{ length(V) }}", "{{ merge(V, V) }}", "{{ cycle(V, 1) }}", "{{ date(V) }}", "{{ dump(V)|length > 0 }}", "{{ json_encode(V) }}",
 	"{% set q = V %}{{ q }}", "{% include 't2' with {'v': V} only %}", "{{ V|first|first }}", "{{ V|keys|first }}", "{{ V|reverse|join }}", "{{ {'k': V}|keys }}", "{{ [V, V]|length }}",
